@@ -70,8 +70,38 @@ SmClauses(r) ==
            <<"sm-norm-iszero", r.normok /\ r.norm2 = SMNorm2(r.a) /\ r.iszero = SMIsZero(r.a) /\ r.zeroiszero>>,
            <<"sm-ring", N # K \/ RingOK(r.a, r.a2, r.sq, r.s, N)>> >>
 
+\* ---- static_matrix with complex elements (exact Gaussian integers)
+SmcClauses(r) ==
+    LET N == r.N
+        K == r.K
+        M == r.M
+        a == CPairs(r.a_re, r.a_im)
+        a2 == CPairs(r.a2_re, r.a2_im)
+        b == CPairs(r.b_re, r.b_im)
+        u == CPairs(r.u_re, r.u_im)
+        v == CPairs(r.v_re, r.v_im)
+        adj == CPairs(r.adj_re, r.adj_im)
+    IN  << <<"smc-adjoint=conjugate-transpose", adj = CSMAdjoint(a, N, K)>>,
+           <<"smc-mul", CPairs(r.mul_re, r.mul_im) = CSMMul(a, b, N, K, M) /\ CPairs(r.adjmul_re, r.adjmul_im) = CSMAdjoint(CSMMul(a, b, N, K, M), N, M)>>,
+           <<"smc-inner", CPairs(r.inner_re, r.inner_im) = CSMInner(a, a2, N, K)>>,
+           \* <A u, v> = <u, A^H v>, both as computed by the real code and as defined
+           <<"smc-adjoint-identity", /\ CPairs(r.axv_re, r.axv_im) = CSMInner(CSMMul(a, u, N, K, 1), v, N, 1)
+                                     /\ CPairs(r.uahv_re, r.uahv_im) = CPairs(r.axv_re, r.axv_im)>>,
+           <<"smc-trace(A^H A)=norm^2", r.normok /\ r.norm2 = CSMNorm2(a) /\ CPairs(r.tr_re, r.tr_im) = << <<CSMNorm2(a), 0>> >> >>,
+           <<"smc-spec-identities", CAdjointOK(a, b, u, v, N, K, M)>> >>
+
+\* ---- long thin graphs
+CmLongClauses(r) == << <<"cm-no-exception", r.exc = 0>>,
+                       <<"cm-permutation", r.permok /\ r.noverrun /\ (Len(r.perm) > 0 => IsPermutationFast(r.perm, r.n))>> >>
+SkyLongClauses(r) == << <<"no-exception-when-dominant", r.exc = 0>>,
+                        <<"permutation", r.permok>>,
+                        <<"residual", r.exc = 0 => (r.finite /\ r.res <= Tol /\ r.err <= Tol)>> >>
+
 Clauses(r) ==
     CASE r.k = "cm"     -> CmClauses(r)
+      [] r.k = "cmlong"  -> CmLongClauses(r)
+      [] r.k = "skylong" -> SkyLongClauses(r)
+      [] r.k = "smc"     -> SmcClauses(r)
       [] r.k = "sky"    -> SkyClauses(r)
       [] r.k = "inv"    -> InvClauses(r)
       [] r.k = "sm"     -> SmClauses(r)
